@@ -208,7 +208,7 @@ def run(tier, seed, procs):
     refs = ['TGT', '', 'ZZ-unknown-story']
     tasks = [(MOD, m, pl, K, pos, refs) for m in range(0, M + 1) for pl in ('none', 'mixed') for pos in (0, 1)]
     cols += drive.pool_map(drive.shard_enum_item, tasks, procs)
-    kw = dict(kinds=list(build.ALL_KINDS), faults='heavy', rich=True, degenerate=True, min_stories=1)
+    kw = dict(allow_no_slug=True, kinds=list(build.ALL_KINDS), faults='heavy', rich=True, degenerate=True, min_stories=1)
     shards, per = (8, 400) if quick else (16, 15000)
     cols += drive.pool_map(drive.shard_hyp_steps,
                            [(MOD, per, seed * 1000 + i, kw) for i in range(shards)], procs)
